@@ -178,7 +178,8 @@ func VerifC20Load() {
 			inFile = i < 3
 		}
 		if inFile {
-			fileVals[l.path] = "file-" + l.path
+			// the value in the file is arbitrary text (its last letter is symbolic)
+			fileVals[l.path] = "file-" + l.path + "-" + string([]byte{verifapi.NondetByteRange("file.value", 'a', 'z')})
 		}
 		if inEnv {
 			// the two fields of one list entry may carry equal values
